@@ -1,8 +1,9 @@
 //@UNIT props=C03 mode=extract
 // Extract unit: the collection methods of trait TrackerAPI (src/trackers/tracker_api.rs):
-// get_main_store_wasted, auto_waste, wasted - pasted verbatim - verified against *assumed* contracts of the
-// TrackStore methods they call (find_usable, fetch_tracks, add_track: worker threads + Arc<Vec<Mutex<HashMap>>>,
-// out of both verifiers' reach; their map behaviour is the bounded probe store_c09).
+// get_main_store_wasted, auto_waste, wasted - pasted verbatim - verified against contracts of the TrackStore methods
+// they call. fetch_tracks / add_track: the clauses stated here are PROVED on the real bodies in unit store_map_c09
+// (serves C09; same clauses, view an IMap there). find_usable: *assumed* (worker threads + Arc<Vec<Mutex<HashMap>>>,
+// out of both verifiers' reach; its listing behaviour is the bounded probe store_c09).
 // What the proof decides, per call and for every store content: the periodic collection moves exactly the
 // expired tracks from the live store to the wasted store (nothing lost, nothing duplicated), and wasted() hands
 // out exactly the expired tracks and removes them from both stores (handed out once).
@@ -73,7 +74,7 @@ pub struct TrackStore<TA, M, OA, N> { _p: core::marker::PhantomData<(TA, M, OA, 
 impl<TA, M, OA, N> TrackStore<TA, M, OA, N> {
     pub uninterp spec fn tracks(&self) -> Map<u64, Track<TA, M, OA, N>>;
 
-    // ---- assumed contracts of the store operations (trusted; bounded probe store_c09) ----
+    // ---- contracts of the store operations: find_usable assumed (bounded probe store_c09); fetch_tracks / add_track proved in unit store_map_c09 ----
     #[verifier::external_body]
     pub fn find_usable(&mut self) -> (r: Vec<(u64, Result<TrackStatus>)>)
         ensures
@@ -88,6 +89,8 @@ impl<TA, M, OA, N> TrackStore<TA, M, OA, N> {
 
     #[verifier::external_body]
     pub fn fetch_tracks(&mut self, tracks: &[u64]) -> (r: Vec<Track<TA, M, OA, N>>)
+        requires
+            wf(old(self).tracks()),
         ensures
             final(self).tracks() == old(self).tracks().remove_keys(tracks@.to_set()),
             ids_of(r@).no_duplicates(),
@@ -134,6 +137,8 @@ pub trait TrackerAPI<TA, M, OA, N> {
                 final(self).main_tracks() == old(self).main_tracks();
 
 //@PASTE file=src/trackers/tracker_api.rs anchor=`fn get_main_store_wasted(&mut self) -> Vec<Track<TA, M, OA, N>> {` result=r fn=TrackerAPI::get_main_store_wasted
+        requires
+            wf(old(self).main_tracks()),
         ensures
             //@VACUITY
             final(self).main_tracks() == old(self).main_tracks().remove_keys(expired(old(self).main_tracks())), //# C03/tracker_api.collection_removes_exactly_the_expired_tracks_from_the_live_store
